@@ -60,7 +60,14 @@ type fObs struct {
 	Info       infoObs `json:"info"`
 	Pre        preObs  `json:"pre"`
 	Err        string  `json:"err"`
+	// Marked: an assertion reported as individually validated carries the marker text that the sender put inside the
+	// (genuine) Signature element after signing -- content no signature covers
+	Marked bool `json:"marked_flagged"`
 }
+
+// UnsignedMarker is text a sender adds inside a genuine ds:Signature element (which the enveloped-signature transform
+// removes before digesting, so the signature still verifies).
+const UnsignedMarker = "UNSIGNED-MARKER-7f3a"
 
 func (Forgery) Name() string { return "Forgery" }
 func (Forgery) MC(tier string) (string, string) {
@@ -79,8 +86,14 @@ func (Forgery) Cap(tier string) int {
 func (Forgery) Layouts(tier string) int { return 1 }
 
 // Keep: documents with a genuine root signature are few and carry the signed-Response path; always replayed.
+// Keep: the acceptance paths (IdP-signed root; unsigned root whose kids all carry the IdP's own signature) and the damaged
+// root signatures are preferred in a sample; everything else fills the other two thirds.
 func (Forgery) Keep(c *orch.Case) bool {
-	return bytes.Contains(c.Input, []byte(`"rsig":"gen"`)) || bytes.Contains(c.Input, []byte(`"rsig":"reloc"`)) || bytes.Contains(c.Input, []byte(`"rsig":"malformed"`))
+	if bytes.Contains(c.Input, []byte(`"rsig":"gen"`)) || bytes.Contains(c.Input, []byte(`"rsig":"reloc"`)) || bytes.Contains(c.Input, []byte(`"rsig":"malformed"`)) {
+		return true
+	}
+	return bytes.Contains(c.Input, []byte(`"rsig":"none"`)) && bytes.Contains(c.Input, []byte(`"sig":"own"`)) &&
+		!bytes.Contains(c.Input, []byte(`"sig":"none"`)) && !bytes.Contains(c.Input, []byte(`"sig":"att`)) && !bytes.Contains(c.Input, []byte(`"sig":"copied"`))
 }
 
 var ridMap = map[string]string{"r1": "_resp-r1", "rX": "_resp-x9", "a1": "_assert-a1"}
@@ -167,6 +180,19 @@ func BuildForgeryW(in *fInput, seed int64, claim bool, wrapName string) (doc []b
 		switch k.Sig {
 		case "own":
 			el = ownSignedWith(b, w, spec, standalone, withAdvice)
+			if seed%3 == 1 {
+				// the sender decorates the genuine signature with content of its own
+				for _, ch := range el.ChildElements() {
+					if ch.Tag == "Signature" {
+						obj := etree.NewElement("Object")
+						obj.Space = ch.Space
+						ev := etree.NewElement("evil")
+						ev.SetText(UnsignedMarker)
+						obj.AddChild(ev)
+						ch.AddChild(obj)
+					}
+				}
+			}
 		case "copied":
 			other := "GA1"
 			if k.C == "GA1" {
@@ -348,7 +374,8 @@ func wrapperNames() []string {
 			}
 			taken[rt.Field(i).Name] = true
 		}
-		wrapNames = []string{"Extensions", "Advice", "Evidence", "StatusDetail", "Subject", "Conditions", "AttributeValue", "Object", "SubjectConfirmationData"}
+		// ("Response" inside a Response: a parent check by NAME instead of by identity would be fooled)
+		wrapNames = []string{"Extensions", "Advice", "Evidence", "StatusDetail", "Subject", "Conditions", "AttributeValue", "Object", "Response"}
 		for _, l := range SourceLiterals() {
 			ok := len(l) >= 3 && len(l) <= 40
 			for i, r := range l {
@@ -400,6 +427,14 @@ func observeSSO(sp *saml2.SAMLServiceProvider, enc string) *fObs {
 			o.RFlag = r.SignatureValidated
 			for i := range r.Assertions {
 				o.Assertions = append(o.Assertions, aObs{C: world.Identify(&r.Assertions[i]), Flag: r.Assertions[i].SignatureValidated})
+				if r.Assertions[i].SignatureValidated {
+					if js, _ := json.Marshal(&r.Assertions[i]); bytes.Contains(js, []byte(UnsignedMarker)) {
+						o.Marked = true
+					}
+					if sg := r.Assertions[i].Signature; sg != nil && bytes.Contains(sg.SignatureDocument, []byte(UnsignedMarker)) {
+						o.Marked = true
+					}
+				}
 			}
 		}
 	}()
